@@ -1258,6 +1258,12 @@ where
     );
     kawa.parsing_phase = match kawa.body_size {
         BodySize::Chunked => ParsingPhase::Chunks { first: true },
+        // `content-length: 0` on a HEADERS frame without END_STREAM announces an
+        // empty body, but the stream only ends with the frame that carries
+        // END_STREAM (RFC 9113 §8.1). Declaring the message terminated here let
+        // an HTTP/2 receiver get HEADERS without END_STREAM and nothing after:
+        // the closing empty DATA frame then arrived on a stream already retired.
+        BodySize::Length(0) if !end_stream => ParsingPhase::Body,
         BodySize::Length(0) => ParsingPhase::Terminated,
         BodySize::Length(_) => ParsingPhase::Body,
         BodySize::Empty => ParsingPhase::Chunks { first: true },
